@@ -148,7 +148,11 @@ def same_at(sa, sb, probe):
     """Element `probe` of both sequences denotes the same source row (0<=probe<len)."""
     xa = sa.at(probe)
     xb = sb.at(probe)
-    return xa[0] == xb[0] and xa[1] == xb[1]
+    if xa[0] != xb[0]:
+        return False
+    if xa[0][0] in ('fill', 'zero', 'bcast', 'uninit'):
+        return True          # every row of such a source is the same value
+    return xa[1] == xb[1]
 
 
 def seq_equal(sa, sb, probe):
